@@ -546,8 +546,13 @@ def c_view(wp, tid, ptr, idx, n, kind):
     rel = {'off': off.t, 'len': P[m]}
     for _, c in ens_view(P, idx, rel, kind):
         wp.assume(c)
+    if m == 1:
+        view['row'] = idx[0]          # a first-axis row view remembers WHICH row it is (by the proved clause: data() + row * P_1)
     if kind == 'tensor':
-        return wp.new_tensor(wp.elems(arr)[m:], T['buf'], view['off'])
+        t = wp.new_tensor(wp.elems(arr)[m:], T['buf'], view['off'])
+        if m == 1:
+            wp.tens[t.t]['row'] = idx[0]
+        return t
     if kind == 'matrix':
         view['rows'], view['cols'] = wp.dim(tid, R - 2), wp.dim(tid, R - 1)
     return V(wp.tmp(kind), 'View', view)
